@@ -19,7 +19,10 @@ WIDTHS_SAFE = [1, 1, 2, 3, 4, 8, 8, 12, 16, 24, 31]
 WIDTHS_WILD = WIDTHS_SAFE + [32, 33, 64]
 REFUSE_KINDS = ['for', 'while', 'call', 'chained-compare', 'tuple-target', 'float-const', 'ternary-in-call', 'list-literal',
                 'pow', 'truediv', 'subscript', 'lambda', 'string-const', 'is-compare', 'unary-plus', 'walrus', 'return-value',
-                'nested-def', 'aug-tuple', 'in-compare']
+                'nested-def', 'aug-tuple', 'in-compare',
+                # match patterns other than a literal value / `_` : no PySyntax constructor exists for them
+                'match-capture', 'match-as', 'match-or', 'match-sequence', 'match-star', 'match-class', 'match-mapping',
+                'match-guarded-wildcard']
 
 
 class G:
@@ -272,6 +275,15 @@ def refuse_snippet(kind, rng, g):
         'nested-def': ['def h(z):', '    return z + 1', f'{o}.{wr}({a})'],
         'aug-tuple': [f'x = {a}', f'x += 1,', f'{o}.{wr}(3)'],
         'in-compare': [f'if {a} in (1, 2):', f'    {o}.{wr}(1)'],
+        'match-capture': [f'match {a} & 3:', '    case 0:', f'        {o}.{wr}(7)', '    case other:', f'        {o}.{wr}(other + 1)'],
+        'match-as': [f'match {a} & 3:', '    case 1 as v:', f'        {o}.{wr}(v + 4)', '    case _:', f'        {o}.{wr}(2)'],
+        'match-or': [f'match {a} & 3:', '    case 1 | 2:', f'        {o}.{wr}(5)', '    case _:', f'        {o}.{wr}(2)'],
+        'match-sequence': [f'match {a} & 3:', '    case [1, 2]:', f'        {o}.{wr}(5)', '    case _:', f'        {o}.{wr}(2)'],
+        'match-star': [f'match {a} & 3:', '    case [1, *rest]:', f'        {o}.{wr}(5)', '    case _:', f'        {o}.{wr}(2)'],
+        'match-class': [f'match {a} & 3:', '    case int():', f'        {o}.{wr}(5)', '    case _:', f'        {o}.{wr}(2)'],
+        'match-mapping': [f'match {a} & 3:', '    case {1: v}:', f'        {o}.{wr}(5)', '    case _:', f'        {o}.{wr}(2)'],
+        'match-guarded-wildcard': [f'match {a} & 3:', '    case 0:', f'        {o}.{wr}(7)', f'    case _ if {a} > 2:', f'        {o}.{wr}(5)',
+                                   '    case _:', f'        {o}.{wr}(2)'],
     }[kind]
 
 
@@ -321,6 +333,105 @@ def gen_class(rng, idx, profile, refuse_kind=None):
     L += ['        ' + l for l in body]
     return dict(name=name, src='\n'.join(L) + '\n', ins=g.ins, outs=g.outs, consts=g.consts, state=g.state, seq=seq,
                 tags=sorted(g.tags), attr_of=g.attr_of, profile=profile)
+
+
+# ------------------------------------------------------------------------------------------------ nesting / precedence stream
+PY_BIN = {'add': '+', 'sub': '-', 'mul': '*', 'fdiv': '//', 'fmod': '%', 'band': '&', 'bor': '|', 'bxor': '^', 'shl': '<<', 'shr': '>>',
+          'eq': '==', 'ne': '!=', 'lt': '<', 'le': '<=', 'gt': '>', 'ge': '>='}
+NEST_BIN = ['add', 'sub', 'mul', 'fdiv', 'fmod', 'band', 'bor', 'bxor', 'shl', 'shr']
+NEST_CMP = ['eq', 'ne', 'lt', 'le', 'gt', 'ge']
+NEST_POOL = [0, 1, 2, 3, 5, 7, 8, 12, 100, 255]
+
+
+import operator as _o
+_OPF = {'add': _o.add, 'sub': _o.sub, 'mul': _o.mul, 'fdiv': _o.floordiv, 'fmod': _o.mod, 'band': _o.and_, 'bor': _o.or_, 'bxor': _o.xor,
+        'shl': _o.lshift, 'shr': _o.rshift, 'eq': _o.eq, 'ne': _o.ne, 'lt': _o.lt, 'le': _o.le, 'gt': _o.gt, 'ge': _o.ge}
+
+
+def _ap(op, a, b):
+    """Python operator inside the domain; None when it raises or leaves [0, 2^31) (shift counts kept <= 20)"""
+    if a is None or b is None:
+        return None
+    if op in ('fdiv', 'fmod') and b == 0:
+        return None
+    if op in ('shl', 'shr') and b > 20:
+        return None
+    v = int(_OPF[op](a, b))
+    return v if 0 <= v < (1 << 31) else None
+
+
+def _rhs_safe(outer, inner):
+    """mirror of Tp.safeRhs: the right comparator is emitted bare"""
+    if outer not in NEST_CMP:
+        return True
+    if inner in ('band', 'bor', 'bxor'):
+        return False
+    if inner in NEST_CMP:
+        return outer in ('eq', 'ne') and inner not in ('eq', 'ne')
+    return True
+
+
+def nest_vectors(rng, outer, inner, side, n_diff=3, n_rand=2):
+    """input triples inside the domain; first those on which the two groupings of `x o (y i z)` / `(x i y) o z` DIFFER"""
+    diff, diff2, same = [], [], []
+    for x in NEST_POOL:
+        for y in NEST_POOL:
+            for z in NEST_POOL:
+                if side == 'R':
+                    want = _ap(outer, x, _ap(inner, y, z))
+                    alt = _ap(inner, _ap(outer, x, y), z)
+                else:
+                    want = _ap(outer, _ap(inner, x, y), z)
+                    alt = _ap(inner, x, _ap(outer, y, z))
+                if want is None:
+                    continue
+                (diff if (alt is not None and alt != want) else (diff2 if alt is None else same)).append((x, y, z))
+    diff, diff2, same = rng.shuffle(diff), rng.shuffle(diff2), rng.shuffle(same)
+    d = (diff + diff2)[:n_diff]
+    return d + same[:n_rand], len(diff) + len(diff2)
+
+
+def gen_nest_classes(rng):
+    """for every ordered pair (outer, inner) of binary/comparison operators: the inner operator nested on the LEFT and on the
+    RIGHT of the outer one (same operator included), operands = integers loaded from 8-bit ports, one expression selected per
+    cycle by the port `s`; histories drive, for each expression, operand triples on which the two possible groupings differ.
+    Expressions whose right comparator needs parentheses (known finding cmp-rhs-prec) go to classes of their own."""
+    out = []
+    idx = 0
+    for outer in NEST_BIN + NEST_CMP:
+        for unsafe in (False, True):
+            exprs = []
+            for inner in NEST_BIN + NEST_CMP:
+                for side in ('L', 'R'):
+                    if (side == 'R' and not _rhs_safe(outer, inner)) != unsafe:
+                        continue
+                    txt = f'(x {PY_BIN[outer]} (y {PY_BIN[inner]} z))' if side == 'R' else f'((x {PY_BIN[inner]} y) {PY_BIN[outer]} z)'
+                    vecs, nd = nest_vectors(rng.fork(('nv', outer, inner, side)), outer, inner, side)
+                    if vecs:
+                        exprs.append(dict(txt=txt, vecs=vecs, outer=outer, inner=inner, side=side, n_diff=nd))
+            if not exprs:
+                continue
+            name = f'N{idx}'
+            idx += 1
+            nout = len(exprs)
+            args = ['a', 'b', 'c', 's'] + [f'o{j}' for j in range(nout)]
+            L = [f'class {name}(py4hw.Logic):', f'    def __init__(self, parent, name, {", ".join(args)}):',
+                 '        super().__init__(parent, name)']
+            for n in ('a', 'b', 'c', 's'):
+                L.append(f"        self.{n} = self.addIn('{n}', {n})")
+            for j in range(nout):
+                L.append(f"        self.o{j} = self.addOut('o{j}', o{j})")
+            L += ['    def clock(self):', '        x = self.a.get()', '        y = self.b.get()', '        z = self.c.get()']
+            hist = []
+            for j, e in enumerate(exprs):
+                L += [f'        if self.s.get() == {j}:', f'            self.o{j}.prepare({e["txt"]})']
+                for (x, y, z) in e['vecs']:
+                    hist.append({'a': x, 'b': y, 'c': z, 's': j})
+            out.append(dict(name=name, src='\n'.join(L) + '\n', ins=[('a', 8), ('b', 8), ('c', 8), ('s', 6)],
+                            outs=[(f'o{j}', 32) for j in range(nout)], consts=[], state=[], seq=True,
+                            tags=['nest', 'nest-unsafe-rhs'] if unsafe else ['nest'], attr_of={}, profile='nest',
+                            history=rng.fork(('nh', name)).shuffle(hist), exprs=exprs))
+    return out
 
 
 def write_module(dirpath, modname, classes):
